@@ -43,6 +43,62 @@ pub fn verif_write_state_event(
 ) {
     write_state_event(state_key, state_value, message, "verif", "verif", logger_key, service_state);
 }
+
+/// verif wrapper: the variables monitor_thread keeps across its loop iterations
+pub struct VerifMonitor {
+    pub status: StatusObj,
+    pub state: common::StatusState,
+    pub restored_in_error: bool,
+    pub service_state: ServiceState,
+    pub version_in_extension: String,
+}
+
+/// verif wrapper: same initial values as monitor_thread
+pub fn verif_monitor_new(version_in_extension: &str) -> VerifMonitor {
+    VerifMonitor {
+        status: StatusObj {
+            name: constants::PLUGIN_NAME.to_string(),
+            operation: constants::ENABLE_OPERATION.to_string(),
+            configurationAppliedTime: misc_helpers::get_date_time_string(),
+            code: constants::STATUS_CODE_OK,
+            status: constants::SUCCESS_STATUS.to_string(),
+            formattedMessage: FormattedMessage {
+                lang: constants::LANG_EN_US.to_string(),
+                message: "Update Proxy Agent command output successfully".to_string(),
+            },
+            substatus: Default::default(),
+        },
+        state: common::StatusState::new(),
+        restored_in_error: false,
+        service_state: ServiceState::default(),
+        version_in_extension: version_in_extension.to_string(),
+    }
+}
+
+/// verif wrapper: the real private `report_proxy_agent_service_status` (outcome of the install command)
+pub fn verif_monitor_update_report(
+    m: &mut VerifMonitor,
+    output: std::io::Result<std::process::Output>,
+    status_folder: std::path::PathBuf,
+    seq_no: &str,
+) -> String {
+    report_proxy_agent_service_status(output, status_folder, seq_no, &mut m.status, &mut m.state);
+    m.status.status.clone()
+}
+
+/// verif wrapper: the real private `report_proxy_agent_aggregate_status` (one health observation),
+/// followed by the status report monitor_thread makes after it
+pub fn verif_monitor_poll(m: &mut VerifMonitor, status_folder: std::path::PathBuf, seq_no: &str) -> String {
+    report_proxy_agent_aggregate_status(
+        &m.version_in_extension,
+        &mut m.status,
+        &mut m.state,
+        &mut m.restored_in_error,
+        &mut m.service_state,
+    );
+    common::report_status(status_folder, seq_no, &m.status);
+    m.status.status.clone()
+}
 "#,
     );
     fs::write(dst.join("service_main.rs"), sm).unwrap();
